@@ -533,7 +533,9 @@ def _mul_pixelscale(a_pixelscale, b_pixelscale):
     elif b_pixelscale is None:
         out = a_pixelscale
     else:
-        if a_pixelscale[0] == b_pixelscale[0] and a_pixelscale[1] == b_pixelscale[1]:
+        # (equal to rounding: the sampling a propagation hands its result is a
+        # computed number, 5e-6/5 is not the 1e-6 a plane is given)
+        if np.allclose(np.asarray(a_pixelscale, dtype=float), np.asarray(b_pixelscale, dtype=float), rtol=1e-12, atol=0):
             out = a_pixelscale
         else:
             raise ValueError(f"can't multiply with inconsistent pixelscales: {a_pixelscale} != {b_pixelscale}")
